@@ -114,7 +114,7 @@ pub(super) struct Universe {
     pub(super) sudo: usize,          // indices into accts of the genesis authorities
     pub(super) ibc_sudo: usize,
     pub(super) validators: Vec<(Acct, u32)>,
-    pub(super) assets: Vec<Denom>,   // [native, fee-a, fee-b, nonfee-c, foreign]
+    pub(super) assets: Vec<Denom>,   // [native, fee-a, fee-b, nonfee-c, foreign, max]
     pub(super) fee_assets: Vec<usize>,
     pub(super) native_balances: Vec<u128>,
     pub(super) fees: Vec<(String, Option<(u128, u128)>)>,
@@ -136,6 +136,9 @@ fn pick_amount(rng: &mut ChaChaRng) -> u128 {
         _ => rng.gen_range(1_000_000..10u128.pow(24)),
     }
 }
+
+pub(super) const MAX_ASSET: usize = 5;
+pub(super) const MAX_HOLDER: usize = 10;
 
 pub(super) const FEE_NAMES: [&str; 18] = [
     "rollup_data_submission", "transfer", "ics20_withdrawal", "init_bridge_account", "bridge_lock", "bridge_unlock",
@@ -185,6 +188,9 @@ impl Universe {
             "denom-b".parse().unwrap(),
             "denom-c".parse().unwrap(),
             "transfer/channel-0/utia".parse().unwrap(),
+            // held by one account only (SPARE1 owns u128::MAX of it) and allowed as fee asset: the only way a fee of
+            // u128::MAX can be paid at all
+            "denom-max".parse().unwrap(),
         ];
         let native_balances = (0..accts.len()).map(|i| if i >= 10 { 0 } else { pick_amount(rng) }).collect();
         let fees = FEE_NAMES.iter().map(|n| (n.to_string(), pick_fee(rng, n))).collect();
@@ -284,6 +290,11 @@ impl Universe {
             }
             if self.fee_assets.contains(&k) {
                 state.put_allowed_fee_asset(asset).unwrap();
+            }
+            if k == MAX_ASSET {
+                state.put_allowed_fee_asset(asset).unwrap();
+                state.put_account_balance(&self.accts[MAX_HOLDER].addr, asset, u128::MAX).unwrap();
+                continue;
             }
             for (i, a) in self.accts.iter().enumerate() {
                 if i < 10 && (i + k) % 3 != 0 {
@@ -866,6 +877,54 @@ pub(super) async fn generate_block_txs<S: StateRead>(
                         next_nonce.insert(s, base + k as u32 + 1);
                         out.push(b);
                     }
+                }
+            }
+        }
+    }
+    // a fee schedule under which base + multiplier x size exceeds u128::MAX, and the one account that could pay u128::MAX
+    if matches!(profile, "ledger" | "mixed") && rng.gen_bool(0.15) {
+        let max_asset = u.assets[MAX_ASSET].clone();
+        let bal = balance(state, &u.accts[MAX_HOLDER].addr, &max_asset).await;
+        let huge = matches!(state.get_fees::<RollupDataSubmission>().await, Ok(Some(f)) if f.multiplier() >= 1u128 << 126);
+        let sudo = key_for(u, state, "sudo", None).await;
+        if bal == u128::MAX {
+            if !huge || rng.gen_bool(0.3) {
+                if let Some(s) = sudo {
+                    let m = [u128::MAX, u128::MAX / 2, (1u128 << 127) + 12345, u128::MAX - 1][rng.gen_range(0..4)];
+                    let a = Action::FeeChange(FeeChange::RollupDataSubmission(FeeComponents::new(rng.gen_range(0..10), m)));
+                    let base = match next_nonce.get(&s) {
+                        Some(n) => *n,
+                        None => state.get_account_nonce(&u.accts[s].addr).await.unwrap_or(0),
+                    };
+                    if let Some(t) = build_tx(s, &u.accts[s].key, base, vec![a], "fee_overflow:arm") {
+                        next_nonce.insert(s, base + 1);
+                        out.push(t);
+                    }
+                }
+            }
+            if huge || rng.gen_bool(0.5) {
+                let mut data = vec![0u8; rng.gen_range(2..40)];
+                rng.fill_bytes(&mut data);
+                let a = Action::RollupDataSubmission(RollupDataSubmission { rollup_id: RollupId::new([9; 32]), data: data.into(), fee_asset: max_asset });
+                let base = match next_nonce.get(&MAX_HOLDER) {
+                    Some(n) => *n,
+                    None => state.get_account_nonce(&u.accts[MAX_HOLDER].addr).await.unwrap_or(0),
+                };
+                if let Some(t) = build_tx(MAX_HOLDER, &u.accts[MAX_HOLDER].key, base, vec![a], "fee_overflow:attempt") {
+                    next_nonce.insert(MAX_HOLDER, base + 1);
+                    out.push(t);
+                }
+            }
+        } else if huge {
+            if let Some(s) = sudo {
+                let a = Action::FeeChange(FeeChange::RollupDataSubmission(FeeComponents::new(rng.gen_range(0..50), rng.gen_range(0..20))));
+                let base = match next_nonce.get(&s) {
+                    Some(n) => *n,
+                    None => state.get_account_nonce(&u.accts[s].addr).await.unwrap_or(0),
+                };
+                if let Some(t) = build_tx(s, &u.accts[s].key, base, vec![a], "fee_overflow:disarm") {
+                    next_nonce.insert(s, base + 1);
+                    out.push(t);
                 }
             }
         }
